@@ -191,7 +191,7 @@ def pyGetEdge (edges : List PyEdge) (i j : Nat) : Option PyEdge :=
 def bcString (periodic : Bool) : String := if periodic then "periodical" else "reflecting"
 
 /-- `RDGridSpace.are_neighbors(i, j)` for in-range linear indices -/
-def pyAreNeighbors (g : GridShape) (i j : Nat) : Bool :=
+def kinAreNeighbors (g : GridShape) (i j : Nat) : Bool :=
   let w : Int := g.w
   let h : Int := g.h
   let d : Int := g.d
@@ -213,7 +213,7 @@ def pyDpair (sys : PySys) (s src dst : Nat) : Q × Q :=
 /-- `compute_diffusion_rates`, grid branch: `k = 2/(h**2 * (1/Di + 1/Dj))`, zero if either is zero -/
 def pyDiffusionRatesGrid (sys : PySys) (g : GridShape) (vol : Q) (edge : Rat) (s src dst : Nat) (x : PyState) :
     Res (Q × Q) :=
-  if !(pyAreNeighbors g src dst) then .error .badValue
+  if !(kinAreNeighbors g src dst) then .error .badValue
   else
     let (Di, Dj) := pyDpair sys s src dst
     match vol.cbrt edge with
